@@ -11,3 +11,30 @@ type VerifC18Shard = internal.VerifShard
 func VerifC18NewShardManager(namespace string) *VerifC18ShardManager {
 	return internal.VerifNewSM(namespace)
 }
+
+// VerifC18RecordRoute: the shard the client library sends a per-record operation (put / get / delete) on `key`
+// with the given partition key to; VerifC18RangeRoute: the shard it sends List / RangeScan / DeleteRange with
+// that partition key to. Both run the real routing helper of a clientImpl over the given shard manager.
+func VerifC18RecordRoute(sm *VerifC18ShardManager, key string, partitionKey string) (id int64, ok bool) {
+	defer func() {
+		if r := recover(); r != nil {
+			id, ok = -1, false
+		}
+	}()
+	c := &clientImpl{shardManager: sm.Impl()}
+	return c.getShardForKey(key, newGetOptions([]GetOption{PartitionKey(partitionKey)})), true
+}
+
+func VerifC18RangeRoute(sm *VerifC18ShardManager, partitionKey string) (id int64, ok bool) {
+	defer func() {
+		if r := recover(); r != nil {
+			id, ok = -1, false
+		}
+	}()
+	c := &clientImpl{shardManager: sm.Impl()}
+	o := newListOptions([]ListOption{PartitionKey(partitionKey)})
+	if o.partitionKey == nil {
+		return -1, false // List would fan out to every shard
+	}
+	return c.getShardForKey("", o), true
+}
